@@ -11,6 +11,7 @@ import (
 	"verif/internal/kinds"
 	"verif/internal/load"
 	"verif/internal/report"
+	"verif/internal/scandfa"
 	"verif/internal/yacc"
 	"verif/internal/yyflow"
 )
@@ -24,6 +25,7 @@ type Ctx struct {
 	tbs   map[string]*kinds.Table
 
 	langs    map[string]*yacc.Lang
+	scans    map[string]*scandfa.Analysis
 	flows    map[string]*yyflow.Lang
 	shapes   map[string]map[string]*yyflow.Shape
 	cleanups []func()
